@@ -16,7 +16,7 @@ from ..core import Run
 from ..pool import run_ops
 from ..tlc import read_export, run_tlc, validate_traces
 
-ALL = set(range(1, 88))
+ALL = set(range(1, 92))
 TIERS = {
     "quick": [dict(MaxItems=1, ItemUse=ALL, PrefixUse={1, 2, 3, 4, 5, 6, 7, 8}, QuoteUse={1, 2, 3, 4}, Concat=True),
               dict(MaxItems=2, ItemUse=ALL, PrefixUse={1}, QuoteUse={2, 3}, Concat=False),
@@ -125,7 +125,9 @@ def evaluate(run: Run, cases: list[dict], tag: str, count: bool) -> dict[int, li
     for i, (clause, k) in sorted(validate_traces(run, "AstEq", atraces, name="ftree" + tag).items()):
         if clause != "ok":
             bad.setdefault(i, []).append(("tree:" + clause, {"row": k, "diff": res[i]["tree"].get("diff"), "impl_exc": res[i]["tree"].get("impl_exc"),
-                                                             "nospecempty_equal": bool(res[i]["tree"].get("nospecempty_equal"))}))
+                                                             "nospecempty_equal": bool(res[i]["tree"].get("nospecempty_equal")),
+                                                             "specmerged_equal": bool(res[i]["tree"].get("specmerged_equal")),
+                                                             "nospecempty_textspan_only": bool(res[i]["tree"].get("nospecempty_textspan_only"))}))
     return bad
 
 
@@ -167,6 +169,10 @@ def check(run: Run) -> None:
                 ids.add(EMPTY)
             elif cl == "tree:span" and cont and named:
                 ids.add(SPLIT)
+            elif cl.startswith("tree:") and d.get("specmerged_equal") and named:   # the cut pieces of a spec's text stay separate nodes
+                ids |= {SPLIT, EMPTY}
+            elif cl.startswith("tree:") and d.get("nospecempty_textspan_only") and cont and named:   # both at once
+                ids |= {SPLIT, EMPTY}
             else:
                 return None
         return ids if ids and ids <= known else None
